@@ -510,8 +510,16 @@ impl<'a, T> ChordsV2<'a, T> {
 
         // Clear presses from the queue if they were consumed by a chord.
         if self.active_chords.len() > prev_active_chords_len {
+            // Only the presses that were accumulated: a later press of the same key stays queued.
+            let mut consumed = accumulated_presses.clone();
             self.queue.retain(|qd| match qd.event {
-                Event::Press(_, j) => !accumulated_presses.contains(&j),
+                Event::Press(_, j) => match consumed.iter().position(|k| *k == j) {
+                    Some(pos) => {
+                        consumed.swap_remove(pos);
+                        false
+                    }
+                    None => true,
+                },
                 _ => true,
             });
         }
